@@ -50,6 +50,11 @@ Definition law_recorded_lowest (hn : list (positive * info)) (real : list (posit
 Definition law_not_ready_no_bind (not_ready : bool) (new_binds : Z) : bool :=
   implb not_ready (Z.eqb new_binds 0).
 
+(* L8: a hard limit the scheduler cannot interpret (tier name that no HyperNode carries) must
+   not be dropped silently: no pod of such a job / sub-group is bound (finding D13) *)
+Definition law_unknown_name_no_bind (unknown : bool) (binds : Z) : bool :=
+  implb unknown (Z.eqb binds 0).
+
 (* ---------- what the placement laws mean ---------- *)
 Lemma covers_sound real h nodes : covers real h nodes = true ->
   nodes = [] \/ exists l, aget h real = Some l /\ forall n, In n nodes -> In n l.
